@@ -56,6 +56,10 @@ def _one(R, rng, i, dtype_opt, method, subproc):
     shape[rng.randrange(3)] = rng.choice([130, 150, 257, 300])
     dt = rng.choice(["uint8", "uint16", "uint32", "uint64", "float32"])
     nch = rng.choice([1, 1, 2, 3])
+    # one run in six is a JPEG pipeline (8-bit, 1 or 3 channels)
+    force_jpeg = i % 6 == 3 and dtype_opt != "segmentation"
+    if force_jpeg:
+        dt, nch = "uint8", rng.choice([1, 3])
     n = int(np.prod(shape)) * nch
     if dt == "float32":
         vals = np.array([rng.uniform(0, 1000) for _ in range(n)], dtype=dt)
@@ -74,14 +78,21 @@ def _one(R, rng, i, dtype_opt, method, subproc):
             rd_opts.append("--ignore-scaling")
     if dt in ("uint8", "uint16", "float32") and rng.random() < 0.2:
         rd_opts += ["--input-min", rng.choice([0.0, 10.0]), "--input-max", rng.choice([255.0, 1000.0])]
-    pipeline.write_nifti(nii, arr, slope=slope, inter=inter)
+    storage = rng.choice(["deep-gz", "flat", "flat-gz", "deep", "deep-gz", "flat", "sharded"])
+    # anisotropic voxel sizes: consecutive scales then have different chunk sizes (sharded storage needs
+    # cubic chunks: isotropic there)
+    vox = (1.0, 1.0, 1.0) if storage == "sharded" else rng.choice([(1.0, 1.0, 1.0), (1.0, 1.0, 1.0), (1.0, 2.0, 2.0), (2.0, 2.0, 1.0), (2.0, 1.0, 2.0),
+                      (1.0, 1.0, 4.0), (0.5, 1.0, 1.0)])
+    affine = np.diag(list(vox) + [1.0])
+    pipeline.write_nifti(nii, arr, affine=affine, slope=slope, inter=inter)
 
     enc = "compressed_segmentation" if dt in ("uint32", "uint64") and rng.random() < 0.5 else None
+    if dt == "uint8" and nch in (1, 3) and dtype_opt != "segmentation" and (force_jpeg or rng.random() < 0.5):
+        enc = "jpeg"              # lossy, but deterministic: both pipelines must decode the same voxels
     if dt == "uint64" and method in (None, "average") and dtype_opt != "segmentation":
         dt = "uint32"             # uint64 averaging is the C07 finding; kept out of C19
         arr = (arr % (2 ** 32)).astype(dt)
-        pipeline.write_nifti(nii, arr)
-    storage = rng.choice(["deep-gz", "flat", "flat-gz", "deep", "deep-gz", "flat", "sharded"])
+        pipeline.write_nifti(nii, arr, affine=affine)
     inproc = not subproc and storage != "sharded"
     common, acc = [], {}
     if "flat" in storage:
@@ -97,11 +108,12 @@ def _one(R, rng, i, dtype_opt, method, subproc):
     te_opts = (["--type", dtype_opt] if dtype_opt else []) + (["--encoding", enc] if enc else [])
     R.count(f"type={dtype_opt}:method={method}")
     R.count("subprocess" if not inproc else "in-process")
+    R.count("voxels:" + ("isotropic" if len(set(vox)) == 1 else "anisotropic") + (":jpeg" if enc == "jpeg" else ""))
     R.count("read-options:" + ("scaled" if slope else "plain") + (":ignore" if "--ignore-scaling" in rd_opts else "")
             + (":minmax" if "--input-max" in rd_opts else "") + (":outside" if "--outside-value" in ds_opts else ""))
     case = {"read_options": [str(x) for x in rd_opts], "slope_inter": [slope, inter],
             "downscaling_options": [str(x) for x in ds_opts], "shape": shape, "data_type": dt, "channels": nch, "type": dtype_opt, "encoding": enc,
-            "method": method, "storage": storage, "sharding": sharding}
+            "method": method, "storage": storage, "sharding": sharding, "voxel_size": list(vox)}
 
     # ---- all-in-one
     A = os.path.join(d, "A")
@@ -189,7 +201,8 @@ def _one(R, rng, i, dtype_opt, method, subproc):
                 break
         try:
             _, scC = decode_all(C, acc)
-            why = same(scB, scC)
+            # JPEG: the copy re-encodes decoded voxels (generation loss is expected, not compared)
+            why = same(scB, scC) if enc != "jpeg" else None
             if why:
                 R.violation("convert-chunks --copy-info output differs from its source", case, {"why": why})
         except Exception as e:  # noqa: BLE001
@@ -211,7 +224,7 @@ def _one(R, rng, i, dtype_opt, method, subproc):
         if rc == 0:
             try:
                 _, scS = decode_all(S, {})
-                why = same(scB, scS)
+                why = same(scB, scS) if enc != "jpeg" else None
                 if why:
                     R.violation("convert-chunks into a sharded destination exited 0 but the contents differ", case,
                                 {"why": why})
